@@ -174,6 +174,18 @@ CHECKS = {
         design_ref='DESIGN.md §2 C11',
         note='Trusted: the independent ITP reader; memoised force-field loading per server process. Rotations are restricted to the 24 axis permutations (exact in PDB text), so a dependence that is invariant under axis permutations (e.g. an L1 norm) would not be seen. Polarizable force fields not generated.',
         technique='Metamorphic testing (paired pipeline runs) with Hypothesis-generated fragments, transforms and options'),
+    'C03': dict(
+        category='exploration',
+        text=('Generated systems (1-8 molecules from 1-4 templates: identical chains adjacent or interleaved, instances differing only '
+              'in ignored attributes, near-duplicates differing in one non-ignored detail; sparse keys, permuted node order, atom ids '
+              'absent or permuted; deduplication on/off) go through NameMolType, write_gmx_topology, write_pdb and write_gro; the '
+              '.top, every .itp (independent reader), PDB and GRO (own fixed-column readers) are parsed back: [ molecules ] must expand '
+              'to the molecule sequence, each molecule type written and included exactly once, the k-th coordinate record of every '
+              'molecule must be the k-th ITP atom, and molecules share a name only if their written ITP text is identical (and do '
+              'share it when they differ only in ignored attributes). A further part inserts SortMoleculeAtoms where the CLI has it.'),
+        design_ref='DESIGN.md §2 C03; notes/C03.md',
+        note='Trusted: the independent readers. Integers below 100000 (utils.are_different compares ints with a relative tolerance). F21 is an open known finding (cli-order part).',
+        technique='Hypothesis generated systems, cross-file consistency oracle over independently parsed outputs'),
 }
 
 NOT_YET = 'check not built yet in this round (planned, see DESIGN.md §2)'
